@@ -31,7 +31,7 @@ RULE = (
     "calls: 1-7 statements (assignments, augmented assignments, expression statements, returns, a few if/while/for) whose "
     "expressions have depth 2-4 and interleave external calls f,g,h,k (int) / c,p,q (bool) with + - *, comparisons, "
     "and/or (2-3 operands), not, conditional expressions, chained comparisons, walrus and nested call arguments; ~20% of the "
-    "programs deliberately have the shapes of the former defect D9 (repaired by /repo f9e33c1, 7c8aeda): a lifted operand right of "
+    "programs deliberately have the shapes of the former defect D9 (repaired by /repo f9e33c1, 7c8aeda; extended by 7121677: operands that read mutable state or use operators, 6f37109: old value of `xs[i] op= <lifted rhs>`, 2bb14bb: operands left of a stored operand): a lifted operand right of "
     "a sibling that calls or reads a variable it assigns (binary operators, comparisons, both call arguments, `x += (x := e)`, "
     "lifted operands inside both operands) and chained comparisons whose middle operand is a call / conditional expression / "
     "and-or / walrus / (doubly) negated literal or is re-assigned by the right operand (`f() < g() < h()`, `x < (x := y) < 3`, "
@@ -74,7 +74,7 @@ MANIFEST = {
     "level_text": "Lean theorems over the hand-written model of the expression/branch builders of cfg/builder.py (incl. "
     "ExprBuilder.build_operands, which stores earlier operands in temporaries before a lifted operand is built, and the chained "
     "comparison that keeps its middle operand in a temporary): for EVERY program of the modelled fragment (no hoist-safety "
-    "hypothesis: defect D9 was repaired in /repo by f9e33c1 and 7c8aeda and the model follows the repaired builder) and every "
+    "hypothesis: defect D9 was repaired in /repo by f9e33c1 and 7c8aeda (extended by 7121677, 6f37109 and 2bb14bb) and the model follows the repaired builder) and every "
     "argument store the sequence of external calls performed by the built CFG equals the sequence "
     "performed by Python's evaluation of the source (each call exactly once, left to right, arguments before the call, "
     "short-circuit operands only when Python evaluates them); "
@@ -89,8 +89,11 @@ MANIFEST = {
     "the same result sequence as CPython running the same source.",
     "level_note": "Trusted: Lean kernel + propext/Classical.choice/Quot.sound; the reading of a CFG (exec of the real block "
     "statements); correspondence is sampling. D9 (middle operand of a chained comparison evaluated twice; lifted "
-    "sub-expressions hoisted before left siblings) is fixed in /repo (7c8aeda, f9e33c1); its witnesses are regression inputs "
-    "(corpus/c05/d9_fixed.json) and any call-sequence disagreement is a VIOLATION keyed by the input.",
+    "sub-expressions hoisted before left siblings) is fixed in /repo (7c8aeda, f9e33c1, 7121677, 6f37109, 2bb14bb); its witnesses are regression inputs "
+    "(corpus/c05/d9_fixed.json) and any call-sequence disagreement is a VIOLATION keyed by the input. KNOWN FINDING (not fixed, "
+    "maintainers' design decision, upstream 1.0.4 alike): ops that panic inside the operation (idiv/imod by zero, nat(-1), borrow out of "
+    "range) get no state-order edge, so a legal schedule loses an earlier result (class:implicit-op-panic-overtakes-result; Lean witness "
+    "implicit_panic_op_unordered; the lowered-HUGR oracle prints KNOWN-FINDING only for exactly this class).",
     "technique": "Lean 4 proof over a hand-written builder model + differential correspondence with cfg/builder.py and CPython call traces",
     "design_ref": "DESIGN.md §5 C05",
     "ready": True,
